@@ -74,6 +74,10 @@ class T(str):
     """a Coq term of the function's numeric domain held as a static (translation-time) value"""
 
 
+class TZ(T):
+    """a Coq term of type Z (a Python int) held as a static value (wave 8: the components of a CoordinateND)"""
+
+
 class SSeq(list):
     """a Python list / tuple / iterator whose length and items (T, int or SSeq) are known at translation time"""
     iterator = False
@@ -122,6 +126,10 @@ class Ext:
         self.static_values = {k: list(v) for k, v in fn.get("static_values", {}).items()}   # python text -> component terms
         self.kw_calls = {k: tuple(v) for k, v in fn.get("kw_calls", {}).items()}
         self.nest = 0                                                         # > 0 inside a fold loop / while / joined if
+        # --- wave 8: a parameter read as a tuple of known length ("static_args": {"coordinate": ["Z:c0", "Z:c1"]}; "Z:" = Python int)
+        for k_, items_ in fn.get("static_args", {}).items():
+            self.static[k_] = SSeq(TZ(t_[2:]) if t_.startswith("Z:") else T(t_) for t_ in items_)
+        self.subscript_calls = dict(fn.get("subscript_calls", {}))            # "grid" -> coq function: grid[e] -> (f <int e>)
         self.fn_dom = ctx.dom
 
     # ------------------------------------------------------------------ typing
@@ -130,7 +138,7 @@ class Ext:
 
     def int_atom(self, ctx, e):
         if isinstance(e, ast.Name):
-            return e.id in ctx.int_names
+            return e.id in ctx.int_names or isinstance(self.static.get(e.id), TZ)
         if isinstance(e, ast.Attribute):
             return src(e) in self.int_attrs
         if isinstance(e, ast.Call) and src(e.func) == "len" and len(e.args) == 1 and not e.keywords:
@@ -177,6 +185,8 @@ class Ext:
     def zx(self, ctx, e):
         if isinstance(e, ast.Constant) and isinstance(e.value, int) and not isinstance(e.value, bool):
             return f"({e.value})%Z"
+        if isinstance(e, ast.Name) and isinstance(self.static.get(e.id), TZ):
+            return str(self.static[e.id])
         if isinstance(e, ast.Name) and e.id in ctx.int_names:
             return ctx.rename.get(e.id, e.id)
         if isinstance(e, ast.Attribute) and src(e) in self.int_attrs:
@@ -289,6 +299,8 @@ class Ext:
     def expr(self, ctx, e):
         if isinstance(e, ast.Name) and e.id in self.static:
             v = self.static[e.id]
+            if isinstance(v, TZ):
+                return self.inject(ctx, str(v))
             if isinstance(v, T):
                 return str(v)
             if isinstance(v, int) and not isinstance(v, bool):
@@ -301,6 +313,8 @@ class Ext:
             if type(seq_[k]) is int:
                 return py2coq.lit(ctx, seq_[k])
             raise Unsupported(f"{src(e)}: a static sequence used as a number")
+        if isinstance(e, ast.Subscript) and src(e.value) in self.subscript_calls and not isinstance(e.slice, ast.Slice):
+            return f"({self.subscript_calls[src(e.value)]} {self.zx(ctx, e.slice)})"    # grid[position]: the translated __getitem__
         if isinstance(e, ast.Call) and src(e.func) in self.kw_calls:
             coq, names = self.kw_calls[src(e.func)]
             kws = {k.arg: k.value for k in e.keywords}
@@ -398,11 +412,21 @@ class Ext:
             return bool(e.elts)
         if isinstance(e, ast.ListComp):
             return True
+        if self.tuple_genexp(e) is not None:
+            return True
         if self.static_index(e) is not None:
             return True
         if isinstance(e, ast.Call) and isinstance(e.func, ast.Name) and e.func.id in ("enumerate", "zip", "product"):
             return all(self.is_static_expr(a.value if isinstance(a, ast.Starred) else a) for a in e.args) and bool(e.args)
         return False
+
+    @staticmethod
+    def tuple_genexp(e):
+        """tuple(<generator expression>) -> the generator expression (read like a list comprehension; the value is a tuple)"""
+        if isinstance(e, ast.Call) and isinstance(e.func, ast.Name) and e.func.id == "tuple" and len(e.args) == 1 and not e.keywords \
+                and isinstance(e.args[0], ast.GeneratorExp):
+            return e.args[0]
+        return None
 
     def static_index(self, e):
         """row[i]: a literal index into a named static sequence (not an iterator) -> (sequence, index)"""
@@ -441,7 +465,9 @@ class Ext:
         if self.static_index(e) is not None:
             seq_, k = self.static_index(e)
             return seq_[k]
-        if isinstance(e, ast.ListComp):
+        if self.tuple_genexp(e) is not None:
+            e = self.tuple_genexp(e)
+        if isinstance(e, (ast.ListComp, ast.GeneratorExp)):
             if len(e.generators) != 1 or e.generators[0].ifs or e.generators[0].is_async:
                 raise Unsupported(f"comprehension {src(e)}")
             g = e.generators[0]
@@ -713,6 +739,12 @@ class Ext:
             if isinstance(self.static.get(s.target.id), SSeq):
                 raise Unsupported(f"augmented assignment to the static sequence {s.target.id}")
             self.guard_rebind(ctx, s.target.id)
+        # ---- wave 8: return of a static tuple of numbers (a CoordinateND / tuple variant): a Coq tuple
+        if isinstance(s, ast.Return) and s.value is not None and self.fn.get("ret_tuple") and self.is_static_expr(s.value):
+            v = self.sval(ctx, s.value)
+            if not isinstance(v, SSeq) or v.iterator or len(v) != self.fn["ret_tuple"] or not all(isinstance(x, T) and not isinstance(x, TZ) for x in v):
+                raise Unsupported(f"{src(s)}: not a static tuple of {self.fn['ret_tuple']} numbers")
+            return "(" + ", ".join(v) + ")"
         # ---- return of a Python int
         if isinstance(s, ast.Return) and self.fn.get("ret_int"):
             if s.value is None or not self.int_shape(ctx, s.value):
@@ -881,6 +913,107 @@ class Ext:
         return None
 
 
+# ---------------------------------------------------------------------------------------------------------------------------
+# wave 8 (audit5a X-c / X-d): what the translator reads must be what Python runs.  `find_function` takes the FIRST def of a
+# name, ignores decorators and knows nothing of the module namespace; the guards below refuse (fail closed)
+#   * a function / class that is defined or bound more than once in its scope (Python binds the LAST def),
+#   * a decorator list other than the one the spec declares ("decorators": [...], default none; classes: none),
+#   * a free name of the function body that is bound more than once at module level, a name the translator reads with its
+#     built-in meaning (max, len, enumerate, zip, tuple, ...) that the module or the function binds at all, `np` that is not
+#     exactly `import numpy as np`, a `global` declaration of such a name anywhere, and `from m import *`.
+READ_AS_BUILTIN = {"max", "min", "len", "enumerate", "zip", "tuple", "range", "next", "abs", "int", "float", "isinstance", "list", "sum"}
+KNOWN_ALIASES = {"np": "numpy"}
+
+
+def _binds(n, name):
+    """does the module-level / class-level statement n bind `name`?  (defs and classes are not entered)"""
+    if isinstance(n, (ast.FunctionDef, ast.AsyncFunctionDef, ast.ClassDef)):
+        return n.name == name
+    for x in ast.walk(n):
+        if isinstance(x, (ast.FunctionDef, ast.AsyncFunctionDef, ast.ClassDef)) and x.name == name:
+            return True
+        if isinstance(x, (ast.Import, ast.ImportFrom)) and any((a.asname or a.name.split(".")[0]) == name for a in x.names):
+            return True
+        if isinstance(x, ast.Name) and x.id == name and isinstance(x.ctx, (ast.Store, ast.Del)):
+            return True
+    return False
+
+
+def source_guards(tree, qual, decorators, node=None):
+    """refuses unless `qual` resolves to exactly one def per scope with the declared decorators and the free names of its
+    body have one meaning; returns the function node.  `node` = an already selected registered variant of qual."""
+    scope, owner = tree.body, None
+    for p in qual.split("."):
+        hits = [n for n in scope if _binds(n, p)]
+        if len(hits) != 1 or not isinstance(hits[0], (ast.FunctionDef, ast.ClassDef)):
+            raise Unsupported(f"{qual}: `{p}` is bound {len(hits)} times in its scope (Python runs the last binding)")
+        owner = hits[0]
+        if isinstance(owner, ast.ClassDef) and owner.decorator_list:
+            raise Unsupported(f"{qual}: class {p} is decorated: {[src(d) for d in owner.decorator_list]}")
+        scope = owner.body
+    if not isinstance(owner, ast.FunctionDef):
+        raise Unsupported(f"{qual}: not a function")
+    got = [src(d) for d in owner.decorator_list]
+    if got != list(decorators):
+        raise Unsupported(f"{qual}: decorators {got}, the spec declares {list(decorators)}")
+    body = node if node is not None else owner
+    for x in ast.walk(tree):
+        if isinstance(x, ast.ImportFrom) and any(a.name == "*" for a in x.names):
+            raise Unsupported(f"{qual}: the module has `from {x.module} import *`")
+    params = {a.arg for a in ast.walk(body) if isinstance(a, ast.arg)}
+    stored = {x.id for x in ast.walk(body) if isinstance(x, ast.Name) and isinstance(x.ctx, (ast.Store, ast.Del))}
+    loaded = {x.id for x in ast.walk(body) if isinstance(x, ast.Name) and isinstance(x.ctx, ast.Load)}
+    loaded |= {src(d).split(".")[0] for d in owner.decorator_list}
+    special = READ_AS_BUILTIN | set(KNOWN_ALIASES)
+    if (params | stored) & special & loaded:
+        raise Unsupported(f"{qual}: {sorted((params | stored) & special & loaded)} bound inside the function")
+    globs = {g for x in ast.walk(tree) if isinstance(x, (ast.Global, ast.Nonlocal)) for g in x.names}
+    for name in sorted(loaded - params - stored):
+        b = [n for n in tree.body if _binds(n, name)]
+        if name in globs:
+            raise Unsupported(f"{qual}: `{name}` is declared global / nonlocal somewhere in the module")
+        if name in READ_AS_BUILTIN and b:
+            raise Unsupported(f"{qual}: the built-in `{name}` is re-bound at module level")
+        if name in KNOWN_ALIASES and not (len(b) == 1 and isinstance(b[0], ast.Import) and any(
+                a.name == KNOWN_ALIASES[name] and a.asname == name for a in b[0].names)):
+            raise Unsupported(f"{qual}: `{name}` is not (only) `import {KNOWN_ALIASES[name]} as {name}`")
+        if len(b) > 1:
+            raise Unsupported(f"{qual}: `{name}` is bound {len(b)} times at module level")
+    return owner
+
+
+def guarded(tree, spec, fn):
+    """emitter (default of specs/TIE.py): source_guards, then the generic machinery"""
+    source_guards(tree, fn["py"], fn.get("decorators", []))
+    fn2 = {k: v for k, v in fn.items() if k != "emitter"}
+    return py2coq.translate_function(tree, spec, fn2)
+
+
+def pinned(tree, spec, fn):
+    """emitter: NOT a translation.  fn["pin"] = [(enclosing `if` tests, statement text), ...] must be exactly the list of the
+    statements of fn["py"] that store into one of fn["pin_targets"] (attribute texts), in source order: the spec's reading of
+    those attributes (e.g. grid.origin = 0, one origin coordinate for every axis) is then the text it was written against.
+    Emits a comment only; any edit of those statements (or a new store) is refused."""
+    node = source_guards(tree, fn["py"], fn.get("decorators", []))
+    found = []
+
+    def visit(stmts, tests):
+        for st in stmts:
+            if isinstance(st, ast.If):
+                visit(st.body, tests + [src(st.test)])
+                visit(st.orelse, tests + ["not " + src(st.test)])
+            elif isinstance(st, (ast.For, ast.While, ast.With, ast.Try, ast.FunctionDef, ast.Match)):
+                if any(src(x) in fn["pin_targets"] for x in ast.walk(st) if isinstance(x, ast.Attribute) and isinstance(x.ctx, ast.Store)):
+                    raise Unsupported(f"{fn['py']}: a pinned attribute is stored inside a {type(st).__name__}")
+            elif any(src(x) in fn["pin_targets"] for x in ast.walk(st) if isinstance(x, ast.Attribute) and isinstance(x.ctx, ast.Store)):
+                found.append((tests, src(st)))
+    visit(node.body, [])
+    want = [(list(t), s_) for t, s_ in fn["pin"]]
+    if found != want:
+        raise Unsupported(f"{fn['py']}: stores into {fn['pin_targets']} are {found}, the spec was written against {want}")
+    return f"(* PINNED (not translated) {fn['py']}: " + "; ".join(s_ for _, s_ in found).replace("*)", "* )") + " *)\n"
+
+
 def registered(tree, spec, fn):
     """emitter: the `_` that is registered on a singledispatchmethod (`@<name>.register`) of class fn["py"] = "Class.<name>"
     and whose first non-self parameter is annotated fn["variant_of"]; translated by the generic machinery"""
@@ -896,11 +1029,23 @@ def registered(tree, spec, fn):
                 found.append(n)
     if len(found) != 1:
         raise Unsupported(f"{fn['py']}: {len(found)} variants registered for {fn['variant_of']}")
+    source_guards(tree, fn["py"], ["singledispatchmethod"], node=found[0])      # the dispatcher itself: defined once, that decorator
+    b = [n for n in tree.body if _binds(n, "singledispatchmethod")]
+    if not (len(b) == 1 and isinstance(b[0], ast.ImportFrom) and b[0].module == "functools" and b[0].level == 0
+            and any(a.name == "singledispatchmethod" and a.asname is None for a in b[0].names)):
+        raise Unsupported(f"{fn['py']}: `singledispatchmethod` is not (only) `from functools import singledispatchmethod`")
+    for n in cls.body:                     # register(...) called as a function, or a second decorator on a variant: refused
+        if isinstance(n, ast.FunctionDef) and any(src(d).startswith(f"{meth}.") for d in n.decorator_list) \
+                and [src(d) for d in n.decorator_list] != [f"{meth}.register"]:
+            raise Unsupported(f"{fn['py']}: variant with decorators {[src(d) for d in n.decorator_list]}")
+        if not isinstance(n, ast.FunctionDef) and any(isinstance(x, ast.Attribute) and src(x) == f"{meth}.register" for x in ast.walk(n)):
+            raise Unsupported(f"{fn['py']}: {meth}.register used outside a decorator")
     node = copy.deepcopy(found[0])
     node.name = "registered_variant__"
     fake = ast.Module(body=[node], type_ignores=[])
     fn2 = {k: v for k, v in fn.items() if k not in ("emitter", "variant_of")}
     fn2["py"] = "registered_variant__"
+    fn2["decorators"] = [f"{meth}.register"]     # the fake module's def still carries it (read by the core's find_function guard)
     return py2coq.translate_function(fake, spec, fn2)
 
 
@@ -908,6 +1053,7 @@ def checked(tree, spec, fn):
     """emitter: verifies fn["require_imports"] = {name: module} -- the module-level `from <module> import <name>` exists and the
     name is bound nowhere else at module level or inside the function -- then translates with the generic machinery"""
     req = fn.get("require_imports", {})
+    source_guards(tree, fn["py"], fn.get("decorators", []))
     node = py2coq.find_function(tree, fn["py"])
     for name, module in req.items():
         imports = [n for n in tree.body if isinstance(n, ast.ImportFrom) and n.module == module and n.level == 0
